@@ -143,7 +143,7 @@ var prios = []int32{1, 1, 3, 5, 5, 7, 9, 0, 2, 1 << 30}
 
 func gen(t *rapid.T) Case {
 	var c Case
-	c.Cfg.Limit = rapid.SampledFrom([]int{1, 2, 2, 3, 3, 3, 4, 4, 5, 6, 8, 12, 16, 32}).Draw(t, "limit")
+	c.Cfg.Limit = rapid.SampledFrom([]int{1, 2, 2, 3, 3, 3, 4, 4, 4, 5, 5, 6, 8, 12, 16, 32}).Draw(t, "limit")
 	c.Cfg.ReplaceSize = rapid.SampledFrom([]int{0, 8, 8, 1024}).Draw(t, "replace")
 	c.Cfg.SendDH = rapid.IntRange(0, 4).Draw(t, "senddh") != 0
 	c.Cfg.Filter = rapid.SampledFrom([]int{0, 0, 0, 2, 3, 5}).Draw(t, "filter")
@@ -194,7 +194,7 @@ func gen(t *rapid.T) Case {
 	for i := 0; i < nops; i++ {
 		var op Op
 		switch k := rapid.IntRange(0, 19).Draw(t, "kind"); {
-		case k < 9:
+		case k < 11:
 			op.Kind = "msg"
 			op.Peer = rapid.IntRange(0, c.NPeers-1).Draw(t, "peer")
 			// a full want-list is what a client sends first on a connection; later ones are rare
@@ -656,11 +656,26 @@ func (h *harness) doMsg(step int, op Op) *kit.Result {
 	}
 	// P2, P3, P5 speak about rejected newcomers whose block is present: a newcomer without a
 	// local block is itself one of the "wants without local blocks" that go first.
+	// A message with more wants than the limit is first cut to the limit, lowest priorities
+	// first (godoc of WithMaxQueuedWantlistEntriesPerPeer); thr is the lowest priority that
+	// survives that cut, so a rejected newcomer at or below thr may simply have been cut.
+	thr := int32(-1 << 31)
+	if trunc {
+		var ps []int32
+		for _, ci := range wantOrder {
+			ps = append(ps, wants[ci].Priority)
+		}
+		sort.Slice(ps, func(i, j int) bool { return ps[i] > ps[j] })
+		thr = ps[h.c.Cfg.Limit-1]
+	}
 	for _, n := range rejected {
 		if !hasBlk(n) {
 			continue
 		}
 		pn := wants[n].Priority
+		if trunc && pn <= thr {
+			continue
+		}
 		// P2
 		for _, ci := range surv {
 			if !hasBlk(ci) {
